@@ -312,3 +312,64 @@ Theorem C04_attribution_parsed : forall (toks : list token_type) root ns,
       build ns init lit fuel root = Ok r -> covered_tree_b ns root (fst r) = true.
 Proof. exact parsed_covered_tree_K2. Qed.
 Print Assumptions C04_attribution_parsed.
+
+(* ---- the attribution clause on the operator fragment, WITHOUT the C05-K2 exclusion ---- *)
+From GV Require Import Proofs.C05.OperatorNoK2 Proofs.C05.OperatorAttribution.
+
+(* UNBOUNDED: for every token list on which the reference parser of C02 (Spec.Pratt) is
+   defined -- every operator expression of any length and bracket depth, conditionals,
+   else-chains and && / || included -- parse accepts, the node array is a proper tree that is
+   NOT in class C05-K2 (the reference tree keeps the climbing invariant: the root of a left
+   operand binds at least as tightly as the operator taking it, and ?> !> |> are looser than
+   && ||; C05_reference_no_K2, C05_operator_expressions_not_K2 in Properties/C05.v), and
+   every successful build -- any initial state, literal oracle and fuel -- satisfies
+   [covered_tree_b]: one metadata record per instruction, every non-exempt node attributed. *)
+Theorem C04_attribution_operator_expressions : forall (toks : list token_type) (rt : rtree),
+  pratt toks = Some rt ->
+  exists root ns t,
+    parse toks = Ok (root, ns) /\ ns <> [] /\ Compile.tree_of ns root = Some t /\ ~ Known_C05_K2 t /\
+    forall init lit fuel r, build ns init lit fuel root = Ok r -> covered_tree_b ns root (fst r) = true.
+Proof. exact C04_attribution_operator_expressions_proof. Qed.
+Print Assumptions C04_attribution_operator_expressions.
+
+(* ... i.e. C04_attribution_full_statement restricted to the operator fragment *)
+Theorem C04_attribution_full_on_operator_expressions :
+  forall (toks : list token_type) (rt : rtree) root ns init lit fuel r,
+    pratt toks = Some rt -> parse toks = Ok (root, ns) ->
+    build ns init lit fuel root = Ok r -> covered_tree_b ns root (fst r) = true.
+Proof. exact C04_attribution_full_on_operator_expressions_proof. Qed.
+Print Assumptions C04_attribution_full_on_operator_expressions.
+
+(* what C04_attribution_full_statement still lacks, precisely: the parser invariant
+   [parser_links_no_K2_statement] (no accepted token list links a conditional directly as the
+   left operand of && / ||) for token lists OUTSIDE the operator fragment -- side-effect
+   brackets, annotations, blank-line separators, empty brackets *)
+Theorem C04_attribution_full_from_no_K2 :
+  parser_links_no_K2_statement -> C04_attribution_full_statement.
+Proof. exact no_K2_gives_attribution_all_parsed. Qed.
+Print Assumptions C04_attribution_full_from_no_K2.
+
+(* non-vacuity: `a ?> b + 1 |> c !> d * 2 |> (e ?> f) && g || h` (23 tokens; a two-arm
+   else-chain whose default is `((e ?> f) && g) || h`, a bracketed conditional as left
+   operand of &&): the reference parser is defined, the tree is outside C05-K2, and of the
+   20 nodes all but the two ElseJump nodes and the Group are attributed *)
+Example C04_attribution_operator_ex :
+  let toks := [TT_Identifier; TT_JumpIfTrue; TT_Identifier; TT_PlusSign; TT_Number; TT_ElseJump;
+               TT_Identifier; TT_JumpIfFalse; TT_Identifier; TT_MultiplicationSign; TT_Number; TT_ElseJump;
+               TT_StartGroup; TT_Identifier; TT_JumpIfTrue; TT_Identifier; TT_EndGroup; TT_Whitespace; TT_And;
+               TT_Whitespace; TT_Identifier; TT_Or; TT_Identifier] in
+  (match pratt toks with Some rt => r_drops_arms rt | None => true end) = false /\
+  match parse toks with
+  | Ok (root, ns) =>
+    match Compile.tree_of ns root, build ns empty_init lit_all (build_fuel ns) root with
+    | Some t, Ok r =>
+      length ns = 20 /\ drops_arms t = false /\
+      length (owed None t) = 17 /\
+      filter (fun i => match nth_error ns i with Some n => exempt_from_attribution ns n | None => false end) (iot t)
+        = [5; 11; 12] /\
+      covered_tree_b ns root (fst r) = true
+    | _, _ => False
+    end
+  | _ => False
+  end.
+Proof. vm_compute. repeat split; reflexivity. Qed.
